@@ -12,6 +12,10 @@
 #include "api_contracts.h"
 #include "cat.c"
 #include "l1_build.h"
+static size_t g_api_cmd, g_api_name; static int g_api_int;
+#define A_CMD  h_cmd_at(g_api_cmd)
+#define A_INT  g_api_int
+#define A_NAME h_names[g_api_name % H_NC]
 
 static struct env_log R; static struct lock_log RL; static struct env_log G_ZERO; /* the log before the call is empty */
 static int native_pick_int(const char *who)
